@@ -237,6 +237,8 @@ class Normalizer:
         for f in list(repo.funcs.values()):
             self._replace_node(f, self.callable_aliases(f))
         for f in list(repo.funcs.values()):
+            self._replace_node(f, self.expand_star_args(f))  # early: `**T._asdict()` / `*T` must be gone before helpers are inlined
+        for f in list(repo.funcs.values()):
             self._replace_node(f, self.dispatch_tables(f))
         for f in list(repo.funcs.values()):
             self._replace_node(f, self.project_tables(f))
@@ -267,6 +269,8 @@ class Normalizer:
                 break
         for f in list(repo.funcs.values()):
             self._replace_node(f, self.dissolve_objects(f))
+        for f in list(repo.funcs.values()):
+            self._replace_node(f, self.expand_star_args(f))
         self._drop_unreferenced()
         for f in list(repo.funcs.values()):
             self._replace_node(f, self.inline_temps(f))  # the result locals N1 introduced
@@ -729,13 +733,15 @@ class Normalizer:
                 return hm.node, hm, fn.value, hm.qual
             else:
                 r = self.repo.resolve_name(fn.value.id, f.mod)
-                if isinstance(r, Cls) and r.mod is f.mod:
+                if isinstance(r, Cls) and fn.value.id not in (stored_names(f.node) | {a.arg for a in _params(f.node)}):
                     owner = r
             if owner is None:
                 return None
             h = owner.find_method(fn.attr)
-            if h is None or h.qual not in self.new_funcs or h is f or h.mod is not f.mod:
+            if h is None or h.qual not in self.new_funcs or h is f:
                 return None
+            if h.mod is not f.mod and not ((h.is_staticmethod or h.is_classmethod) and self._portable(h.node, h.mod, f.mod)):
+                return None  # a new alternate constructor / static helper of a class in another module: movable when its free names mean the same here
             # dynamic dispatch: the name must have a single definition in the hierarchy
             defs = [c for c in self.repo.classes.values() if fn.attr in c.methods and (c in owner.mro() or owner in c.mro())]
             if len(defs) != 1:
@@ -758,15 +764,44 @@ class Normalizer:
         same package object) or is a builtin: the body can be moved there unchanged."""
         import builtins
 
+        adds: t.Dict[str, t.Any] = {}
         bound = stored_names(h) | {a.arg for a in _params(h)}
+        # annotations are not evaluated by the moved body: their names do not have to mean anything in the target module
+        skip: t.Set[int] = set()
         for n in ast.walk(h):
+            anns: t.List[t.Optional[ast.AST]] = []
+            if isinstance(n, ast.arg):
+                anns.append(n.annotation)
+            elif isinstance(n, (ast.FunctionDef, ast.AsyncFunctionDef)):
+                anns.append(n.returns)
+                anns.extend(n.decorator_list)
+            elif isinstance(n, ast.AnnAssign):
+                anns.append(n.annotation)
+            for a_n in anns:
+                if a_n is not None:
+                    skip |= {id(x) for x in ast.walk(a_n)}
+        for n in ast.walk(h):
+            if id(n) in skip:
+                continue
             if isinstance(n, ast.Name) and isinstance(n.ctx, ast.Load) and n.id not in bound:
                 if n.id in home.imports or n.id in target.imports:
-                    if home.imports.get(n.id) != target.imports.get(n.id):
-                        return False
-                    continue
+                    if home.imports.get(n.id) == target.imports.get(n.id):
+                        continue
+                    # defined in one module and imported by the other: the same object when both resolve to it
+                    ra, rb = self.repo.resolve_name(n.id, home), self.repo.resolve_name(n.id, target)
+                    if ra is not None and ra is rb:
+                        continue
+                    return False
                 a_, b_ = self.repo.resolve_name(n.id, home), self.repo.resolve_name(n.id, target)
                 if a_ is None and b_ is None and hasattr(builtins, n.id):
+                    continue
+                if a_ is not None and b_ is None and n.id not in target.imports and not hasattr(builtins, n.id) and n.id not in target.consts:
+                    # a package object the target module does not name at all (its import went away with the moved
+                    # code): the moved body keeps the home module's meaning - the model imports it there
+                    if n.id in home.imports:
+                        adds[n.id] = home.imports[n.id]
+                    else:
+                        adds[n.id] = ("sym", home.name, n.id)
                     continue
                 if a_ is None or b_ is None:
                     return False
@@ -775,6 +810,7 @@ class Normalizer:
                 if isinstance(a_, tuple) and isinstance(b_, tuple) and a_[:3] == b_[:3]:
                     continue
                 return False
+        target.imports.update(adds)
         return True
 
     def _eligible(self, h: FuncNode) -> bool:
@@ -2937,9 +2973,39 @@ class Normalizer:
                         return None
             return items
 
+        def record_fields(e: ast.expr) -> t.Optional[t.List[str]]:
+            """Field names when e is a local holding an instance of a NamedTuple class of the package (bound once to
+            C(..) - possibly the inlined body of an alternate constructor - or an annotated parameter / local)."""
+            if not isinstance(e, ast.Name):
+                return None
+            c: t.Optional[Cls] = self._class_of_expr(f, e)
+            if c is None and stores.get(e.id, 0) == 1 and e.id not in params:
+                defs = [n for n in _walk_no_scopes(fn) if isinstance(n, ast.Assign) and len(n.targets) == 1 and isinstance(n.targets[0], ast.Name) and n.targets[0].id == e.id]
+                if len(defs) == 1 and isinstance(defs[0].value, ast.Call) and isinstance(defs[0].value.func, ast.Name):
+                    r = repo.resolve_name(defs[0].value.func.id, f.mod)
+                    c = r if isinstance(r, Cls) else None
+            if c is None or not any(x.endswith("NamedTuple") for x in c.ext_bases):
+                return None
+            return [p_.name for p_ in c.init_params()]
+
         class C(ast.NodeTransformer):
             def visit_Call(self, node: ast.Call) -> ast.AST:
                 self.generic_visit(node)
+                # g(**T._asdict()) with T a NamedTuple instance  ->  g(f1=T.f1, f2=T.f2, ..)
+                kws: t.List[ast.keyword] = []
+                changed = False
+                for k in node.keywords:
+                    v = k.value
+                    if k.arg is None and isinstance(v, ast.Call) and isinstance(v.func, ast.Attribute) and v.func.attr == "_asdict" and not v.args and not v.keywords:
+                        flds = record_fields(v.func.value)
+                        if flds is not None:
+                            kws.extend(ast.keyword(arg=n_, value=ast.Attribute(value=copy.deepcopy(v.func.value), attr=n_, ctx=ast.Load())) for n_ in flds)
+                            changed = True
+                            continue
+                    kws.append(k)
+                if changed:
+                    node.keywords = kws
+                    hit[0] = True
                 if not any(isinstance(a, ast.Starred) for a in node.args):
                     return node
                 args: t.List[ast.expr] = []
@@ -2947,7 +3013,10 @@ class Normalizer:
                     if isinstance(a, ast.Starred):
                         es = elems(a.value)
                         if es is None:
-                            return node
+                            flds = record_fields(a.value)
+                            if flds is None:
+                                return node
+                            es = [ast.Attribute(value=copy.deepcopy(a.value), attr=n_, ctx=ast.Load()) for n_ in flds]  # *T of a record is its fields in order
                         args.extend(copy.deepcopy(x) for x in es)
                     else:
                         args.append(a)
@@ -3069,6 +3138,24 @@ class Normalizer:
             for n in _walk_no_scopes(f.node):
                 if isinstance(n, ast.AnnAssign) and isinstance(n.target, ast.Name) and n.target.id == e.id:
                     return ann_cls(n.annotation, f.mod)
+            # x = self.TABLE.get(k[, None]) / self.TABLE[k]   with  TABLE: Dict[K, C]  declared in the class
+            defs = [n for n in _walk_no_scopes(f.node) if isinstance(n, ast.Assign) and len(n.targets) == 1 and isinstance(n.targets[0], ast.Name) and n.targets[0].id == e.id]
+            if len(defs) == 1 and f.cls is not None:
+                v = defs[0].value
+                base: t.Optional[ast.expr] = None
+                if isinstance(v, ast.Call) and isinstance(v.func, ast.Attribute) and v.func.attr == "get" and 1 <= len(v.args) <= 2 and (len(v.args) == 1 or (isinstance(v.args[1], ast.Constant) and v.args[1].value is None)):
+                    base = v.func.value
+                elif isinstance(v, ast.Subscript):
+                    base = v.value
+                if isinstance(base, ast.Attribute) and isinstance(base.value, ast.Name) and base.value.id == "self":
+                    for c in f.cls.mro():
+                        anns = [st.annotation for st in c.node.body if isinstance(st, ast.AnnAssign) and isinstance(st.target, ast.Name) and st.target.id == base.attr]
+                        init = c.methods.get("__init__")
+                        if init is not None:
+                            anns += [n.annotation for n in ast.walk(init.node) if isinstance(n, ast.AnnAssign) and unparse(n.target) == f"self.{base.attr}"]
+                        for ann in anns:
+                            if isinstance(ann, ast.Subscript) and unparse(ann.value).rsplit(".", 1)[-1] in ("Dict", "dict", "Mapping", "MutableMapping", "DefaultDict") and isinstance(ann.slice, ast.Tuple) and len(ann.slice.elts) == 2:
+                                return ann_cls(ann.slice.elts[1], c.mod)
             return None
         if isinstance(e, ast.Attribute) and isinstance(e.value, ast.Name) and e.value.id == "self" and f.cls is not None:
             for c in f.cls.mro():
